@@ -101,34 +101,44 @@ def run(ck):
     ck.extra["function_pairs"] = len(pairs)
     ck.extra["pairs_with_removed_code"] = nontrivial
     ck.extra["instructions_removed"] = removed_total
-    # ---- twin runs
+    # ---- twin runs, judged through the reference semantics: where TengoSem allows exactly one
+    # outcome both twins must be identical (results, error text, positions); where several outcomes
+    # are allowed (map iteration order) each twin must be one of them
     ro = semlib.real_outcomes(ck, progs, nproc=8)
     ru = semlib.real_outcomes(ck, progs, nproc=8, extra={"nodce": True})
+    outs = semlib.tlc_outcomes(ck, progs, njobs=10, tag="sem")
 
     def norm(o):
-        o = dict(o)
         return json.dumps(o, sort_keys=True)
     twins_ok = 0
+    agree = 0
     for p in progs:
         a, b = ro[p["id"]], ru[p["id"]]
-        if norm(a) != norm(b):
+        ms = outs[p["id"]]
+        va, det = semcmp.compare(ms, a)
+        vb, detb = semcmp.compare(ms, b)
+        if va == "disagree":
+            ck.violation("sem", "optimized program disagrees with TengoSem: expected %s got %s\n%s" % (det["expected"], det["got"], p["src"]),
+                         {"program": p, "model": ms, "real": a})
+            continue
+        if vb == "disagree":
+            ck.violation("sem-unopt", "unoptimized twin disagrees with TengoSem: expected %s got %s\n%s" % (detb["expected"], detb["got"], p["src"]),
+                         {"program": p, "model": ms, "real": b})
+            continue
+        if va == "agree":
+            agree += 1
+        deterministic = len(ms) == 1 and ms[0]["k"] != "excluded"
+        if deterministic and norm(a) != norm(b):
             ck.violation("twin-run", "optimized and unoptimized code behave differently:\n%s\nopt:   %s\nunopt: %s" % (
+                p["src"], json.dumps(a)[:600], json.dumps(b)[:600]), {"program": p, "opt": a, "unopt": b})
+        elif a["k"] != b["k"] or a.get("kind") != b.get("kind"):
+            ck.violation("twin-run", "optimized and unoptimized code end differently:\n%s\nopt:   %s\nunopt: %s" % (
                 p["src"], json.dumps(a)[:600], json.dumps(b)[:600]), {"program": p, "opt": a, "unopt": b})
         else:
             twins_ok += 1
     ck.evaluations = len(progs) * 2 + len(pairs)
     ck.traces += twins_ok
     ck.extra["twin_runs_equal"] = twins_ok
-    # ---- optimized twin vs the reference semantics (positions are C14's business)
-    outs = semlib.tlc_outcomes(ck, progs, njobs=10, tag="sem")
-    agree = 0
-    for p in progs:
-        v, det = semcmp.compare(outs[p["id"]], ro[p["id"]])
-        if v == "disagree":
-            ck.violation("sem", "optimized program disagrees with TengoSem: expected %s got %s\n%s" % (det["expected"], det["got"], p["src"]),
-                         {"program": p, "model": outs[p["id"]], "real": ro[p["id"]]})
-        elif v == "agree":
-            agree += 1
     ck.extra["agree_with_TengoSem"] = agree
     if pairs:
         big = max(pairs, key=lambda q: len(q["unopt"]) - len(q["opt"]))
